@@ -466,6 +466,71 @@ pub fn plan_for(property: &str, seed: u64) -> Plan {
             plan.time_cap_us *= 20;
             plan
         }
+        "C04" => {
+            let p = Profile {
+                max_stream_bytes: 60_000,
+                small_windows: r.chance(1, 2),
+                small_stream_limits: r.chance(1, 3),
+                allow_reset: true,
+                allow_stop: true,
+                corrupting: false,
+                fault_rates_permille: &[0, 0, 10, 50],
+                ..Default::default()
+            };
+            let mut plan = base_plan(seed, property, "c04.byz", &mut r, &p);
+            let end = 5_000_000u64;
+            plan.faults_end_us = Some(end);
+            plan.time_cap_us = plan.time_cap_us * 4 + end;
+            // one rule per run, enumerated by seed so that the catalogue is covered completely
+            let kinds: Vec<ByzKind> = vec![
+                ByzKind::StreamBeyondStreamCredit { delta: 0 },
+                ByzKind::StreamBeyondStreamCredit { delta: 1 << 20 },
+                ByzKind::StreamBeyondConnCredit { delta: 0 },
+                ByzKind::StreamBeyondConnCredit { delta: 1 << 30 },
+                ByzKind::StreamAtMaxOffset,
+                ByzKind::StreamIdBeyondLimit { bidi: true, by: 0 },
+                ByzKind::StreamIdBeyondLimit { bidi: false, by: 0 },
+                ByzKind::StreamIdBeyondLimit { bidi: true, by: 1 << 40 },
+                ByzKind::DataAfterFin,
+                ByzKind::ChangedFinalSize { shrink: true },
+                ByzKind::ChangedFinalSize { shrink: false },
+                ByzKind::ResetOtherFinalSize,
+                ByzKind::StreamOnPeerSendOnly,
+                ByzKind::MaxStreamDataForUnopenedLocal,
+                ByzKind::StopSendingForUnopenedLocal,
+                ByzKind::ResetForUnopenedLocal,
+                ByzKind::MaxStreamsTooLarge { bidi: true },
+                ByzKind::MaxStreamsTooLarge { bidi: false },
+                ByzKind::NewCidRetirePriorGtSeq,
+                ByzKind::NewCidBadLen { len: 0 },
+                ByzKind::NewCidBadLen { len: 21 },
+                ByzKind::NewCidDupSeqOtherCid,
+                ByzKind::RetireUnissuedSeq { by: 0 },
+                ByzKind::RetireUnissuedSeq { by: 1000 },
+                ByzKind::HandshakeDoneFromClient,
+                ByzKind::NewTokenFromClient,
+                ByzKind::AckNeverSent { ahead: 0 },
+                ByzKind::UnknownFrameType { ty: 0x1f },
+                ByzKind::UnknownFrameType { ty: 0x40 },
+                ByzKind::UnknownFrameType { ty: 0x4242 },
+                ByzKind::AppFrameInHandshakeSpace { initial: true },
+                ByzKind::AppFrameInHandshakeSpace { initial: false },
+                ByzKind::CryptoBeyondBuffer,
+            ];
+            let kind = kinds[(seed % kinds.len() as u64) as usize].clone();
+            let client_attacks = match kind {
+                ByzKind::HandshakeDoneFromClient | ByzKind::NewTokenFromClient => true,
+                _ => r.chance(1, 2),
+            };
+            let rule = ByzRule { at_packet: r.pick(&[0u64, 1, 2, 5, 20]), conn: u32::MAX, kind };
+            if client_attacks {
+                plan.cfg.client.byz = vec![rule];
+            } else {
+                plan.cfg.server.byz = vec![rule];
+            }
+            plan.conns.truncate(1);
+            plan
+        }
         "C06" => {
             if r.chance(2, 3) {
                 // only additive faults: every genuine datagram still arrives, so the connection
